@@ -140,3 +140,88 @@ Proof. vm_compute. discriminate. Qed.
 Example C13_mode_acts :
   run_shexc QAlg (with_mode FAbs ex_rcfg) ex_thr ex_graph <> run_shexc QAlg ex_rcfg ex_thr ex_graph.
 Proof. vm_compute. discriminate. Qed.
+
+(** ** End to end: the same statements for [Run.run_shapes].
+
+    The options of the shexing stage reach the run only through [scfg_of];
+    the choice of the shapes prefix, the tracker and the profiler read
+    [front_agree]'s fields only (Proofs/EndToEnd2.v: [run_shapes_post],
+    [run_shapes_rel]).  [rwith_X v c] changes field X of the run configuration.
+    An equation [run1 = map_res f run2] also says that the two runs fail
+    together, with the same error. *)
+From Shexer Require Import Model.Tracker Proofs.EndToEnd2 Proofs.RunWitness.
+
+(** generic: two run configurations that agree on what is read before the
+    shexing stage, and whose shexing stages are related by [f] *)
+Theorem C13_run_generic : forall fa c1 c2 (thr : F fa) g (f : list shape -> list shape),
+  front_agree c1 c2 ->
+  (forall ns P C, shex fa (scfg_of c1 ns) thr P C = map_res f (shex fa (scfg_of c2 ns) thr P C)) ->
+  run_shapes fa c1 thr g =
+  map_res (fun x : nsdict * list shape => let '(ns, l) := x in (ns, f l)) (run_shapes fa c2 thr g).
+Proof. exact run_shapes_post. Qed.
+Print Assumptions C13_run_generic.
+
+Theorem C13_run_disable_comments : forall fa c (thr : F fa) g,
+  run_shapes fa (rwith_disable_comments true c) thr g =
+  map_res (fun x : nsdict * list shape => let '(ns, l) := x in (ns, map_shapes drop_comments l))
+          (run_shapes fa (rwith_disable_comments false c) thr g).
+Proof. exact run_disable_comments. Qed.
+Print Assumptions C13_run_disable_comments.
+
+Theorem C13_run_allow_opt_cardinality : forall fa c (thr : F fa) g,
+  run_shapes fa (rwith_allow_opt false c) thr g =
+  map_res (fun x : nsdict * list shape => let '(ns, l) := x in (ns, map_shapes opt_to_star l))
+          (run_shapes fa (rwith_allow_opt true c) thr g).
+Proof. exact run_allow_opt. Qed.
+Print Assumptions C13_run_allow_opt_cardinality.
+
+Theorem C13_run_disable_exact_cardinality : forall fa c (thr : F fa) g,
+  run_shapes fa (rwith_disable_exact true c) thr g =
+  map_res (fun x : nsdict * list shape => let '(ns, l) := x in (ns, map_shapes generalize_exact l))
+          (run_shapes fa (rwith_disable_exact false c) thr g).
+Proof. exact run_disable_exact. Qed.
+Print Assumptions C13_run_disable_exact_cardinality.
+
+(** O4 on its domain ([rO4_dom c]: exact cardinalities kept or comments disabled) *)
+Theorem C13_run_all_compliant : forall fa c (thr : F fa) g ns L1,
+  rO4_dom c ->
+  run_shapes fa (rwith_all_compliant true c) thr g = inl (ns, L1) ->
+  exists L0, run_shapes fa (rwith_all_compliant false c) thr g = inl (ns, L0) /\
+             map_err (relax_shape fa (scfg_of c ns)) L0 = inl L1.
+Proof. exact run_all_compliant. Qed.
+Print Assumptions C13_run_all_compliant.
+
+Theorem C13_run_all_compliant_failure_mono : forall fa c (thr : F fa) g e,
+  rO4_dom c ->
+  run_shapes fa (rwith_all_compliant false c) thr g = inr e ->
+  exists e', run_shapes fa (rwith_all_compliant true c) thr g = inr e'.
+Proof. exact run_all_compliant_failure_mono. Qed.
+Print Assumptions C13_run_all_compliant_failure_mono.
+
+(** O5 when both runs succeed *)
+Theorem C13_run_disable_or_statements : forall fa c (thr : F fa) g ns_t L_t ns_f L_f,
+  run_shapes fa (rwith_disable_or true c) thr g = inl (ns_t, L_t) ->
+  run_shapes fa (rwith_disable_or false c) thr g = inl (ns_f, L_f) ->
+  ns_t = ns_f /\ Forall2 (shape_rel (fun _ => or_rel)) L_t L_f.
+Proof. exact run_disable_or. Qed.
+Print Assumptions C13_run_disable_or_statements.
+
+(** non-vacuity at run level (default configuration): three instances, one
+    with property q, all with two values of property r *)
+Definition g_opts : graph :=
+  [ty "a" "C"; ty "b" "C"; ty "c" "C"; lit "a" "q" "x";
+   lit "a" "r" "x"; lit "a" "r" "y"; lit "b" "r" "x"; lit "b" "r" "y"; lit "c" "r" "x"; lit "c" "r" "y"].
+
+Example C13_run_options_act :
+  run_shapes BAlg (rwith_disable_comments true base_rcfg) thr0 g_opts <>
+  run_shapes BAlg (rwith_disable_comments false base_rcfg) thr0 g_opts /\
+  run_shapes BAlg (rwith_allow_opt false base_rcfg) thr0 g_opts <>
+  run_shapes BAlg (rwith_allow_opt true base_rcfg) thr0 g_opts /\
+  run_shapes BAlg (rwith_all_compliant false base_rcfg) thr0 g_opts <>
+  run_shapes BAlg (rwith_all_compliant true base_rcfg) thr0 g_opts /\
+  run_shapes BAlg (rwith_disable_exact true base_rcfg) thr0 g_opts <>
+  run_shapes BAlg (rwith_disable_exact false base_rcfg) thr0 g_opts /\
+  run_shapes BAlg (rwith_disable_or false base_rcfg) thr0 g_reftie_1 <>
+  run_shapes BAlg (rwith_disable_or true base_rcfg) thr0 g_reftie_1 /\
+  rO4_dom base_rcfg.
+Proof. repeat split; try (vm_compute; discriminate). left. reflexivity. Qed.
